@@ -95,9 +95,11 @@ structure Book where
   /-- the history so far is inside the quantifier of C01–C04 (values 0/1, alternating,
       pair discipline, no axis-driven actions or key emulation) -/
   ok : Bool
+  /-- a Go panic was observed: the device is gone, nothing is claimed afterwards -/
+  dead : Bool := false
   deriving Repr, Inhabited
 
-def Book.init (st : StObs) : Book := ⟨st, [], [], [], [], true⟩
+def Book.init (st : StObs) : Book := ⟨st, [], [], [], [], true, false⟩
 
 def pairs : List (Action × Action) :=
   [(.mappingUp, .mappingDown), (.octaveUp, .octaveDown), (.semitoneUp, .semitoneDown), (.channelUp, .channelDown)]
@@ -311,7 +313,70 @@ def checkStep (cfg : Config) (idx : Nat) (b : Book) (st : Step) : List Fail × B
   let snd := sounding b.snd st.outs
   let fails := if ok ∧ acc ∧ b'.down = [] ∧ snd ≠ [] then fails ++ [⟨"C01", idx, "sounding-at-quiescence"⟩] else fails
   let _ := okBefore
-  (fails, { b' with pre := st.st, snd := snd })
+  -- nothing is claimed for configurations the parser rejects, nor after an observed crash
+  let fails := if acc ∧ ¬ b.dead ∧ ¬ st.outs.contains .panic then fails else []
+  (fails, { b' with pre := st.st, snd := snd, dead := b.dead || st.outs.contains .panic })
+
+/-! ### observations: what each property looks at (the tie compares these between model and code) -/
+
+def outTok : Out → String
+  | .midi a b c => s!"{a}.{b}.{c}"
+  | .sig => "SIG"
+  | .panic => "PANIC"
+
+def outsStr (os : List Out) : String := " ".intercalate (os.map outTok)
+def stStr (s : StObs) : String := s!"{s.oct},{s.semi},{s.ch},{s.map},{s.notes}"
+def sndStr (s : List (Nat × Nat)) : String :=
+  " ".intercalate ((s.map (fun p => p.1 * 128 + p.2)).toArray.qsort (· < ·) |>.toList.map toString)
+
+def classTok : Out → String
+  | .midi a b c => s!"{a / 16}{if b < 128 then "v" else "X"}{if c < 128 then "v" else "X"}"
+  | .sig => "SIG"
+  | .panic => "PANIC"
+
+/-- per-property observations of one step -/
+def obsStep (cfg : Config) (b : Book) (st : Step) : List (String × String) :=
+  let (e, b') := expectStep cfg b st.ev
+  let snd := sounding b.snd st.outs
+  let o : List (String × String) := []
+  let o := if b'.down = [] then o ++ [("C01", sndStr snd)] else o
+  let o := if (stateActionOf cfg st.ev).isSome then o ++ [("C02", outsStr (st.outs.filter isMidi))] else o
+  let o := match st.ev with
+    | .key _ _ 0 =>
+      if (actionOf cfg st.ev).isNone then
+        o ++ [("C02", outsStr (st.outs.filter (fun m => isMidi m ∧ some m ≠ e.relOff)))]
+      else o
+    | _ => o
+  let o := if isNoteKeyStep cfg st.ev then o ++ [("C03", outsStr st.outs)] else o
+  let o := o ++ [("C04", stStr st.st)]
+  let o := match st.ev with
+    | .key _ _ 1 => if isNoteKeyStep cfg st.ev ∧ e.fresh ∧ ¬ e.swallowed then o ++ [("C04", outsStr st.outs)] else o
+    | _ => o
+  let o := o ++ [("C05", " ".intercalate ((st.outs.map classTok).eraseDups.toArray.qsort (· < ·)).toList)]
+  let o := match st.ev with
+    | .key _ _ 1 => if actionOf cfg st.ev = some .panic then o ++ [("C13", outsStr st.outs ++ "|" ++ stStr st.st)] else o
+    | _ => o
+  let o := o ++ [("C14", toString (sigCount st.outs))]
+  let o := if e.swallowed ∨ sigCount st.outs > 0 then o ++ [("C14", outsStr st.outs ++ "|" ++ stStr st.st)] else o
+  o
+
+def observeSteps (cfg : Config) : Book → List Step → List (String × String) × Book
+  | b, [] => ([], b)
+  | b, s :: r =>
+    let o := obsStep cfg b s
+    let (_, b') := checkStep cfg 0 b s
+    let (os, b'') := observeSteps cfg b' r
+    (o ++ os, b'')
+
+def observe (t : Trace) : List (String × String) :=
+  let (os, b) := observeSteps t.cfg (Book.init t.init) t.steps
+  let oc : List (String × String) :=
+    match t.cleanup with
+    | none => []
+    | some o => [("C01", sndStr (sounding b.snd o)), ("C05", " ".intercalate ((o.map classTok).eraseDups.toArray.qsort (· < ·)).toList)]
+  [("C04", stStr t.init)] ++ os ++ oc
+
+def obsOf (p : String) (os : List (String × String)) : List String := (os.filter (·.1 = p)).map (·.2)
 
 def checkSteps (cfg : Config) : Nat → Book → List Step → List Fail × Book
   | _, b, [] => ([], b)
@@ -332,7 +397,7 @@ def checkTrace (t : Trace) : List Fail :=
     | none => []
     | some o =>
       (if acc ∧ ¬ o.all wellFormed then [⟨"C05", t.steps.length, "malformed-message"⟩] else []) ++
-      (if acc ∧ b.ok ∧ sounding b.snd o ≠ [] then [⟨"C01", t.steps.length, "sounding-after-disconnect"⟩] else [])
+      (if acc ∧ b.ok ∧ ¬ b.dead ∧ sounding b.snd o ≠ [] then [⟨"C01", t.steps.length, "sounding-after-disconnect"⟩] else [])
   f0 ++ fs ++ fc
 
 def failsOf (p : String) (fs : List Fail) : List Fail := fs.filter (·.prop = p)
